@@ -24,3 +24,22 @@ pub fn vec_with_capacity_bounded<T>(n: usize) -> (r: Vec<T>)
 {
     Vec::with_capacity(n)
 }
+/// `v.resize(new_len, x)`: growing a buffer by more than the constant bound is an allocation request
+pub fn vec_resize_bounded<T: Copy>(v: &mut Vec<T>, new_len: usize, x: T)
+    requires new_len <= old(v)@.len() + 0x10000,
+    ensures final(v)@.len() == new_len,
+        forall|i: int| 0 <= i < new_len ==> final(v)@[i] == (if i < old(v)@.len() { old(v)@[i] } else { x }),
+{
+    if new_len <= v.len() {
+        v.truncate(new_len);
+    } else {
+        let ghost v0 = v@;
+        while v.len() < new_len
+            invariant v@.len() <= new_len, v0.len() <= v@.len(),
+                forall|i: int| 0 <= i < v@.len() ==> v@[i] == (if i < v0.len() { v0[i] } else { x }),
+            decreases new_len - v@.len(),
+        {
+            v.push(x);
+        }
+    }
+}
